@@ -235,3 +235,34 @@ def declare_licensing(e):
             return [(s, Val(STR, eng.uf("expr_render", [E], z3.StringSort())(recv.t)))]
         raise Unsupported(f"Expr.{name}")
     e.method_models[("Expr", "*")] = m_expr_method
+
+
+def declare_cli(e):
+    """click / sys models: output goes to a ghost write log, sys.exit raises SystemExit carrying its code."""
+    import sys as _sys
+    import click
+    import reuse.cli.common as common
+    reg = e.reg
+    reg.declare("ref", "ClickObj", fields={"root": "Optional[Path]", "include_submodules": "bool",
+                                           "include_meson_subprojects": "bool", "no_multiprocessing": "bool",
+                                           "_project": "Optional[Project]"}, pyclass=common.ClickObj)
+
+    def m_exit(eng, s, args, kw, node):
+        code = args[0] if args else eng.lift(0)
+        if code.is_py:
+            code = eng.lift(code.t)
+        eng.raise_(s, SystemExit, where=node, code=code)
+        return []
+    e.func_models[_sys.exit] = m_exit
+
+    def m_echo(eng, s, args, kw, node):
+        s = s.copy()
+        log = s.ghost.get("stdout")
+        msg = args[0] if args else eng.lift("")
+        if msg.is_py:
+            msg = eng.lift(msg.t)
+        nl = kw.get("nl")
+        txt = msg.t if (nl is not None and nl.is_py and nl.t is False) else z3.Concat(msg.t, z3.StringVal("\n"))
+        s.ghost["stdout"] = Val(STR, txt if log is None else z3.Concat(log.t, txt))
+        return [(s, Val(NONE, None))]
+    e.func_models[click.echo] = m_echo
